@@ -605,6 +605,12 @@ def r14_4(prog, rep):
                     for h in tr.handlers:
                         names = [_ast.unparse(e) for e in (h.type.elts if isinstance(h.type, _ast.Tuple) else [h.type])] if h.type is not None else ["BaseException"]
                         covered |= set(names)
+                # ... or, the same thing, inside `with contextlib.suppress(RecursionError, MemoryError):`
+                if isinstance(tr, _ast.With) and any(node is sub for b in tr.body for sub in _ast.walk(b)):
+                    for it in tr.items:
+                        ce = it.context_expr
+                        if isinstance(ce, _ast.Call) and prog.resolve_expr_name(entry.module, ce.func) == "contextlib.suppress":
+                            covered |= {_ast.unparse(a) for a in ce.args}
             if not ({"RecursionError", "MemoryError"} <= covered or covered & {"Exception", "BaseException"}):
                 unguarded.append(sorted(covered))
     if f is not entry:
